@@ -105,3 +105,18 @@ claim('C11',
       'replica is re-synthesised once both sides terminated.',
       'completeness of the cache under all interleavings (timing of cache_full); which side binary_connection marks as cached is '
       'checked under C11.R1 when the plan-shape engine is armed.')
+claim('C01',
+      'the partitioning discipline of every public combinator, extracted from MIR as an effect sequence (operators appended, block '
+      'boundaries with their NextStrategy, replication restrictions, binary connections, finalisation) and composed through wrappers: '
+      'global folds/sinks behind a one-replica funnel, two-phase forms local-shuffle-global, element-wise combinators create no '
+      'boundary, joins/merge/zip/split/broadcast shapes; no combinator creates a forward link to a block of caller-chosen width.',
+      'the end-to-end equality "multiset at each sink = sequential evaluation" for all programs, inputs and schedules.')
+claim('C07',
+      'aggregation plan shapes (fold/reduce behind a funnel; *_assoc and group_by_* = local phase, shuffle by group_by_hash of the key, '
+      'global phase, same init in both phases); Fold/KeyedFold emit exactly what they drain, with the maximum timestamp; state reset '
+      'per iteration (C05.R3).',
+      'value equality (needs associativity/commutativity of user functions and arithmetic).')
+claim('C08',
+      'join shipping (hash/hash with keyer1/keyer2 through the same group_by constructor, forward/broadcast, forward/forward for keyed '
+      'joins); protocol and state-reset rules on the five join operators (C05).',
+      'the relational result for arbitrary multisets and arrival orders; outer-join bookkeeping is only covered by the state/protocol rules.')
